@@ -263,8 +263,67 @@ def run(pid, tier, replay=None):
     return res
 
 
+MC_SETS = {
+    ("C02", "quick"): ["cat-nonlalr1", "cat-late-merge", "cat-calc", "cat-closure-requeue"],
+    ("C02", "thorough"): ["cat-nonlalr1", "cat-nonlalr2", "cat-late-merge", "cat-calc", "cat-closure-requeue", "cat-closure-requeue2",
+                          "cat-pager", "cat-nullable-chain", "cat-empty-positions", "cat-left-right-rec", "cat-corchuelo", "cat-nullable-late2"],
+    ("C01", "quick"): ["cat-nullable-chain", "cat-empty-positions", "cat-nullable-late1"],
+    ("C01", "thorough"): ["cat-nullable-chain", "cat-empty-positions", "cat-nullable-late1", "cat-nullable-late2", "cat-calc", "cat-left-right-rec",
+                          "cat-corchuelo", "cat-closure-requeue", "cat-closure-requeue2", "cat-list-sep"],
+}
+
+
+def mc_pager(res, pid, tier):
+    """bounded model: Pager under every successor order -> table -> all inputs up to length L"""
+    ids = MC_SETS[(pid, tier)]
+    insts = [dict(id=c["id"], y=c["y"], kind=c["kind"], width=32, sections=[], inputs={}, recovery="off", iseed=1, budget_ms=100)
+             for c in catalog.CAT if c["id"] in ids]
+    jf = os.path.join(res.wd, "mc-job.json")
+    of = os.path.join(res.wd, "mc-out.ndjson")
+    gf = os.path.join(res.wd, "mc-grammars.ndjson")
+    with open(jf, "w") as f:
+        json.dump(dict(seed=1, instances=insts, workers=4), f)
+    core.run_vh(["lr", jf, of])
+    with open(gf, "w") as f:
+        for line in open(of):
+            if '"ev":"grammar"' in line:
+                f.write(line)
+    L = 4 if tier == "quick" else 5
+    cfg = os.path.join(res.wd, "MC_Pager.cfg")
+    body = "SPECIFICATION Spec\nCONSTANTS\n  MergeMode = \"%s\"\n  L = %d\n  ParseAtLeast = 3\n  TryParseAtMost = 250\n" \
+           "INVARIANT ClosedOK\nINVARIANT NotMoreStates\nINVARIANT NoNewConflict\nINVARIANT LanguageOK\nCHECK_DEADLOCK FALSE\n"
+    with open(cfg, "w") as f:
+        f.write(body % ("pager", L))
+    r = core.run_tlc("MC_Pager", cfg, dict(GRAMMARS=gf), res.wd, timeout=3000, workers=12 if tier == "thorough" else 8, heap="10g")
+    res.add_tlc(r)
+    res.notes["mc_pager"] = dict(grammars=ids, distinct=r["distinct"], input_length=L,
+                                 what="Pager.tla under every successor-processing order; in every final state: closed = Closure(core), "
+                                      "|states| <= |canonical LR(1)|, no conflict if LR(1), and the Yacc table of the model automaton accepts "
+                                      "exactly the sentences of length <= L / rejects at the first non-prefix")
+    if r["error"]:
+        res.violation("bounded model MC_Pager.tla: " + r["error"][:500], dict(kind="mc", grammars=ids))
+    elif not r["finished"]:
+        res.cov["inconclusive"] += 1
+    if pid == "C02":
+        # vacuity: merging by core alone (LALR) must be refuted on the LR(1)-but-not-LALR(1) family
+        cfg2 = os.path.join(res.wd, "MC_Pager_lalr.cfg")
+        with open(cfg2, "w") as f:
+            f.write(body % ("lalr", 2))
+        gf2 = os.path.join(res.wd, "mc-grammars-nonlalr.ndjson")
+        with open(gf2, "w") as f:
+            for line, inst in zip(open(gf), insts):
+                if "nonlalr" in inst["id"] or "late-merge" in inst["id"]:
+                    f.write(line)
+        r2 = core.run_tlc("MC_Pager", cfg2, dict(GRAMMARS=gf2), res.wd, timeout=900, workers=4, heap="4g")
+        res.notes["mc_mutation_sanity"] = dict(refuted=bool(r2["error"]), what="weak compatibility replaced by 'same core'")
+        if not r2["error"]:
+            raise core.ToolError("vacuity: LALR merging was not refuted by MC_Pager")
+
+
 def main(pid, tier, replay=None):
     res = run(pid, tier, replay)
+    if pid in ("C01", "C02") and not replay:
+        mc_pager(res, pid, tier)
     if pid == "C03" and not replay:
         # "a compile-time build fails iff the counts differ from %expect / %expect-rr": build
         # histories over grammars with and without conflicts and declarations, validated against
